@@ -91,7 +91,10 @@ class PruneGen:
         ins = [f"In{chr(65 + i)}" for i in range(n_in)]
         # enum routes: each enum gets one designated route
         routes = ["variable", "input_field", "input_default", "nested_result", "mixin_fragment",
-                  "unpacked_fragment", "unused_fragment", "nowhere", "root_arg_literal", "result_and_input"]
+                  "unpacked_fragment", "unused_fragment", "nowhere", "root_arg_literal", "result_and_input",
+                  # enums that occur ONLY as argument types of a field of an interface / of a type reachable only
+                  # through a union: no operation needs them, the operation-builder modules (custom ops) do
+                  "iface_field_arg", "union_member_field_arg"]
         r.shuffle(routes)
         n_enum = r.randint(3, len(routes))
         enums = {}
@@ -147,12 +150,26 @@ class PruneGen:
             mid_fields.append(f"  u{e.lower()}: {e}")
         for e in by_route.get("unused_fragment", []):
             mid_fields.append(f"  x{e.lower()}: {e}")
+        # Relay-style: arguments on an interface field (repeated by every implementer); Folder is reachable only
+        # through Query.node: Node, Lonely only through the union
+        iargs = [f"{e.lower()}: {e}" for e in by_route.get("iface_field_arg", [])]
+        if ins and r.random() < 0.7:
+            iargs.append("filter: " + r.choice(ins))
+        children = "  children" + (("(" + ", ".join(iargs) + ")") if iargs else "") + ": [Container!]"
+        uargs = [f"{e.lower()}: {e}" for e in by_route.get("union_member_field_arg", [])]
+        if ins and r.random() < 0.7:
+            uargs.append("where: " + r.choice(["{}", "[{}!]"]).format(r.choice(ins)))
+        things = "  things" + (("(" + ", ".join(uargs) + ")") if uargs else "") + ": Int"
         lines.append("interface Node {\n  id: ID!\n}")
         lines.append("type Mid implements Node {\n" + "\n".join(mid_fields) + "\n}")
         lines.append("type Other implements Node {\n  id: ID!\n  count: Int\n}")
-        lines.append("union Any2 = Mid | Other")
+        # the only implementer of Container is reachable through the interface alone (Query.container)
+        lines.append("interface Container {\n  id: ID!\n" + children + "\n}")
+        lines.append("type Folder implements Container {\n  id: ID!\n  size: Int\n" + children + "\n}")
+        lines.append("type Lonely {\n  id: ID!\n" + things + "\n}")
+        lines.append("union Any2 = Mid | Other | Lonely")
         # root fields: one per input (arg), one per variable-route enum, some plain
-        q = ["  mid: Mid", "  node: Node", "  any2: Any2", "  plain: Int"]
+        q = ["  mid: Mid", "  node: Node", "  any2: Any2", "  plain: Int", "  container: Container"]
         self.root_in = {}
         for i, name in enumerate(ins):
             fname = f"by{name}"
